@@ -396,7 +396,7 @@ func (d *Document) addFootnoteOrEndnote(text string, noteText string, noteType F
 	// 添加正文文本
 	if text != "" {
 		textRun := Run{
-			Text: Text{Content: text},
+			Text: Text{Content: text, Space: "preserve"},
 		}
 		paragraph.Runs = append(paragraph.Runs, textRun)
 	}
@@ -575,7 +575,7 @@ func (d *Document) createNoteContent(noteID string, noteText string, noteType Fo
 	noteParagraph := &Paragraph{
 		Runs: []Run{
 			{
-				Text: Text{Content: noteText},
+				Text: Text{Content: noteText, Space: "preserve"},
 			},
 		},
 	}
